@@ -25,40 +25,29 @@ def _pool(ctx, ptype):
 
 
 def _validate_shard(ctx, idx, recs):
-    validated, rej = 0, []
-    rnd = 0
-    while recs:
-        rnd += 1
-        tp = os.path.join(ctx.work, "trace-%d-%d.ndjson" % (idx, rnd))
-        write_ndjson(tp, recs)
-        tr = ctx.tlc_trace("Trace_ForcTest", "Trace_ForcTest", tp, name="trace-%d-%d" % (idx, rnd), timeout=3600, count=False)
-        os.remove(tp)
-        if tr.violated is None:
-            validated += sum(len(r["results"]) for r in recs)
-            break
-        m = re.search(r'<<"FIRST-UNMATCHED", (\d+), (\d+), "([^"]*)", "(.*)">>', tr.out)
-        if tr.violated != "postcondition" or not m:
-            raise ToolError("Trace_ForcTest failed unexpectedly (%s); see work/%s/tlc-trace-%d-%d.out" % (tr.violated, ctx.pid, idx, rnd))
+    """One TLC run decides every reported result of the shard; results that are not the specification's are
+    printed by the trace spec (REJECTED ...) and skipped. Returns (validated results, [(record, k, expected)])"""
+    if not recs:
+        return 0, []
+    tp = os.path.join(ctx.work, "trace-%d.ndjson" % idx)
+    write_ndjson(tp, recs)
+    tr = ctx.tlc_trace("Trace_ForcTest", "Trace_ForcTest", tp, name="trace-%d" % idx, timeout=5400, count=False)
+    os.remove(tp)
+    total = sum(len(r["results"]) for r in recs)
+    rej = []
+    for m in re.finditer(r'<<"REJECTED", (\d+), (\d+), "([^"]*)", "(.*)">>', tr.out):
         l, k = int(m.group(1)), int(m.group(2))
         try:
             expected = json.loads(m.group(4).replace('\\"', '"').replace("\\\\", "\\"))
         except Exception:
             expected = m.group(4)
-        validated += sum(len(r["results"]) for r in recs[:l - 1]) + (k - 1)
         rej.append((recs[l - 1], k, expected))
-        # continue with the rest of this run (results after the rejected one are checked as a run of their own
-        # only if the rejection was a result, not the end-of-run completeness condition)
-        rest = recs[l:]
-        bad = recs[l - 1]
-        if k <= len(bad["results"]):
-            tail = dict(bad)
-            tail["id"] = bad["id"] + "+"
-            tail["results"] = bad["results"][k:]
-            done = {x["test"] for x in bad["results"][:k]}
-            tail["suite"] = [t for t in bad["suite"] if t["name"] not in done]
-            rest = [tail] + rest
-        recs = rest
-    return validated, rej
+    m = re.search(r'<<"NOT-ACCEPTED", "consumed", (\d+), "of", (\d+), "rejected", (\d+)>>', tr.out)
+    if tr.violated is None and not rej:
+        return total, []
+    if tr.violated != "postcondition" or not m or int(m.group(1)) != len(recs) or int(m.group(3)) != len(rej):
+        raise ToolError("Trace_ForcTest failed unexpectedly (%s); see work/%s/tlc-trace-%d.out" % (tr.violated, ctx.pid, idx))
+    return total - sum(1 for r, k, e in rej if k <= len(r["results"])), rej
 
 
 def validate(ctx, recs, shard=60, par=4):
@@ -81,23 +70,27 @@ def finding_key(rec, k):
 
 def run(ctx):
     quick = ctx.quick
-    # ---- 1. the design
-    mc = ctx.tlc("MC_ForcTest", "MC_ForcTest" if quick else "MC_ForcTest_r3", workers=4, coverage=True, timeout=3000)
+    ptypes = [PTYPES[ctx.seed % 3]] if quick else PTYPES
+    # ---- 1. the design, 2. the pools (TLC runs side by side: 4 + 2 + 1 workers at most)
+    with ThreadPoolExecutor(max_workers=3) as ex:
+        f_mc = ex.submit(lambda: ctx.tlc("MC_ForcTest", "MC_ForcTest" if quick else "MC_ForcTest_r3", workers=2 if quick else 4,
+                                         coverage=True, timeout=3000))
+        f_sh = ex.submit(lambda: ctx.tlc("MC_ForcTest", "MC_ForcTest_shared", workers=1, count=False, name="shared"))
+        f_pools = [ex.submit(_pool, ctx, p) for p in ptypes]
+        mc, sh = f_mc.result(), f_sh.result()
+        pools = {p: f.result() for p, f in zip(ptypes, f_pools)}
     if mc.violated:
         ctx.report("model:" + mc.violated, "ForcTest.tla violates its own invariant " + mc.violated, {"tlc": mc.counterexample()[:4000]})
-    sh = ctx.tlc("MC_ForcTest", "MC_ForcTest_shared", workers=2, count=False, name="shared")
     if sh.violated != "Isolation":
         raise ToolError("anti-vacuity failed: the shared-storage reading does not violate Isolation (%s)" % sh.violated)
-    # ---- 2. pools
-    with ThreadPoolExecutor(max_workers=3) as ex:
-        pools = dict(zip(PTYPES, ex.map(lambda p: _pool(ctx, p), PTYPES)))
-    # ---- 3. packages
+    # ---- 3. packages (each in two declaration/name orders, adjacent in the list)
     pkgs = []
-    for p in PTYPES:
+    for p in ptypes:
         pkgs += ftg.assemble(pools[p], p, "f")
     npk = len(pkgs)
     if quick:
-        pkgs = slice_for_seed(pkgs, ctx.seed, 8)
+        pairs = [pkgs[i:i + 2] for i in range(0, len(pkgs), 2)]
+        pkgs = [x for pr in slice_for_seed(pairs, ctx.seed, 2) for x in pr]
     res = ftg.execute(ctx, pkgs, procs=4)
     recs, failures = ftg.trace_records(pkgs, res)
     for f in failures:
@@ -121,17 +114,16 @@ def run(ctx):
             c = json.loads(json.dumps(base)); c["id"] += "~leak"
             w = next((i for i, x in enumerate(c["results"]) if x["logs"]), 0)
             c["results"][(w + 1) % len(c["results"])]["logs"] = c["results"][w]["logs"]
-            _, rj = _validate_shard(ctx, 9000, [a])
-            _, rj2 = _validate_shard(ctx, 9001, [b])
-            _, rj3 = _validate_shard(ctx, 9002, [c])
-            selftest = {"flipped_passed_rejected": len(rj) > 0, "dropped_result_rejected": len(rj2) > 0, "foreign_log_rejected": len(rj3) > 0}
+            _, rj = _validate_shard(ctx, 9000, [a, b, c])
+            ids = {x[0]["id"] for x in rj}
+            selftest = {"flipped_passed_rejected": a["id"] in ids, "dropped_result_rejected": b["id"] in ids, "foreign_log_rejected": c["id"] in ids}
             if not all(selftest.values()):
                 raise ToolError("binding self-test failed: %s" % selftest)
     nres = sum(len(r["results"]) for r in recs)
     return ctx.finish("model_checking", {
         "traces_validated_against_impl": validated,
         "exhaustive": True,
-        "suites_enumerated": {p: len(pools[p]) for p in PTYPES}, "packages_total": npk, "packages_run": len(pkgs),
+        "suites_enumerated": {p: len(pools[p]) for p in ptypes}, "packages_total": npk, "packages_run": len(pkgs),
         "runs": len(recs), "test_results_checked": nres, "rejections": len(rej), "build_or_run_failures": len(failures),
         "runner_counts": [1, 4, 16], "action_coverage": mc.coverage_actions(),
         "anti_vacuity": {"shared_storage_reading_violates": sh.violated},
